@@ -58,7 +58,7 @@ class Session:
         port = 7000 + ctx.rng.randrange(50000)
         # "any message timing": in some sessions the passive side's first answers take longer than the active side's T6
         self.slow_select = ctx.rng.random() < 0.15
-        common = dict(address="127.0.0.1", port=port, t3=5.0, t6=0.4 if self.slow_select else 3.0, establish_communication_timeout=10)
+        common = dict(address="127.0.0.1", port=port, t3=10.0, t6=0.4 if self.slow_select else 3.0, establish_communication_timeout=10)
         self.hs = PipeHsmsSettings(connect_mode=A if host_active else P, device_type=secsgem.common.DeviceType.HOST, **common)
         self.es = PipeHsmsSettings(connect_mode=P if host_active else A, device_type=secsgem.common.DeviceType.EQUIPMENT, **common)
         self.host = secsgem.gem.GemHostHandler(self.hs)
@@ -164,7 +164,7 @@ class Session:
     def converge(self, where):
         """Bounded progress in virtual time."""
         self.ctx.count("convergence.checked")
-        deadline = time.monotonic() + 20
+        deadline = time.monotonic() + 45
         fired = 0
         while time.monotonic() < deadline:
             if self.link.error is not None:
@@ -196,8 +196,22 @@ class Session:
                         return False
                     continue
                 if fired >= 10:
+                    # the last attempt may still be on its way on a starved machine: wall-clock grace before the verdict
+                    end = time.monotonic() + 4.0
+                    while time.monotonic() < end and not self.both_communicating():
+                        time.sleep(0.01)
+                    if self.both_communicating():
+                        self.ctx.count("convergence.reached_during_the_final_grace")
+                        return True
                     self.violation(f"not-communicating-after-10-timer-expiries:{where}")
                     return False
+                # virtual time only advances when nothing moved during two observations in a row (a thread that was just woken
+                # looks parked until the OS runs it)
+                if not self.idle(0.25) or self.both_communicating():
+                    continue
+                timers = [t for h in (self.host, self.eq) for t in vtime.pending(owner=h.communication_state)]
+                if not timers:
+                    continue
                 th = vtime.fire(sorted(timers, key=lambda t: (t.due, t.seq))[0])
                 fired += 1
                 if th is not None:
@@ -211,7 +225,7 @@ class Session:
             # one side never finished the close sequence of a connection the other side has left
             self.violation(f"close-sequence-blocked-forever:{where}", stacks=stuck.stacks(6), link_trace=self.link.trace[-6:])
             return False
-        self.ctx.unsure(f"watchdog: not communicating after 20 s ({where}) but the pair never became idle: {self.wit(link_trace=self.link.trace[-8:])}")
+        self.ctx.unsure(f"watchdog: not communicating after 45 s ({where}) but the pair never became idle: {self.wit(link_trace=self.link.trace[-8:])}")
         self.bad = True
         return False
 
@@ -413,8 +427,10 @@ class Session:
             self.violation("subscribe_collection_event-fails", error=repr(err)[:200], ceid=21)
 
     def wait_events(self):
+        # (returns as soon as the reports are there. The report of an event is built by a thread of its own, it reads the
+        #  variables when it runs: the harness must not set the next counter value before that, however loaded the machine is)
         want = len(self.triggered)
-        end = time.monotonic() + 5
+        end = time.monotonic() + 20
         while time.monotonic() < end and len(self.received) < want:
             time.sleep(0.002)
 
@@ -581,7 +597,7 @@ def _tcp_session(ctx, idx):
     host_active = rng.random() < 0.5
     A, P = secsgem.hsms.HsmsConnectMode.ACTIVE, secsgem.hsms.HsmsConnectMode.PASSIVE
     port = ports.free_port(ctx.shard, ctx.nshards)
-    common = dict(address="127.0.0.1", port=port, t3=5.0, t5=1, t6=2.0, establish_communication_timeout=10)
+    common = dict(address="127.0.0.1", port=port, t3=10.0, t5=1, t6=2.0, establish_communication_timeout=10)
     host = secsgem.gem.GemHostHandler(secsgem.hsms.HsmsSettings(connect_mode=A if host_active else P, device_type=secsgem.common.DeviceType.HOST, **common))
     eq = secsgem.gem.GemEquipmentHandler(secsgem.hsms.HsmsSettings(connect_mode=P if host_active else A, device_type=secsgem.common.DeviceType.EQUIPMENT, **common))
     for h in (host, eq):
